@@ -8,7 +8,7 @@ TERNARY = ["=", "<", ">", "<=", ">=", "max", "min"]
 
 def run(ctx):
     return N.run_property(ctx, "C10", [], BINARY, TERNARY,
-                          "every predicate, max, min and eqv? over all pairs of the 65-number grid (every internal representation against every other), sampled triples, "
+                          "every predicate, max, min and eqv? over all pairs of the 75-number grid (every internal representation against every other), sampled triples, "
                           "and random tuples of length 2-5; each judged by NumbersX!Verdict in NumbersTrace.tla; non-trivial = distinct case")
 
 
